@@ -20,6 +20,22 @@
 (*   Finish    d_psi_sq_vals.append(delta), window rule for the next       *)
 (*             tentative step, update() returns dt                         *)
 (*                                                                         *)
+(*   StageRestart  end of thermalisation (skip_time > 0): the step index    *)
+(*             restarts at 0, everything the solver object holds persists  *)
+(*                                                                         *)
+(* "Windowed mean" across the restart.  docs/background.rst defines the    *)
+(* rule for iteration n > N_window of a stage as the mean over             *)
+(* D_{n}, ..., D_{n-N+1}: since n >= N+1 these are all steps of the        *)
+(* CURRENT stage.  The code averages the last N entries of the persistent  *)
+(* list d_psi_sq_vals; n+1 >= N+2 entries have been appended since the     *)
+(* restart when it does, so it averages the same numbers: thermalisation   *)
+(* entries can never enter a window of the recorded stage, and what        *)
+(* thermalisation leaves behind is only tentative_dt, which stays put      *)
+(* during the second warm-up.  The property (TentativeFollowsWindowRule)   *)
+(* is written on the ghost list `dstep` of the current stage only, the     *)
+(* mechanism on the persistent list `dpsi`; TLC checks that they agree.    *)
+(* (Consequence: clearing d_psi_sq_vals at the restart is unobservable.)   *)
+(*                                                                         *)
 (* Environment (explicit nondeterminism): which attempts are refused, the  *)
 (* delta of every answer, the kernel output of every screening iteration.  *)
 (*                                                                         *)
@@ -60,7 +76,8 @@ CONSTANTS
   AlphaExps,                 \* screening_step_size alpha = 2^-alphaexp
   BetaQs,                    \* screening_step_drag beta = betaq/4, betaq in 1..4
   Kicks,                     \* indices into KickTable: kernel output = current iterate + kick
-  MaxSteps, MaxRefusals,     \* exploration bounds
+  Thermals,                  \* subset of BOOLEAN: a thermalisation stage precedes the recorded stage (skip_time > 0)
+  MaxSteps, MaxThermal, MaxRefusals,     \* exploration bounds: steps of the recorded stage, of the thermalisation stage, refusals
   MSliceExtra,               \* window slice [-window-1:] instead of [-window:]
   MClipInit,                 \* clip the tentative step to dt_init instead of dt_max
   MNeverRaise,               \* retry counter that never trips
@@ -68,6 +85,8 @@ CONSTANTS
   MTestPrev,                 \* convergence test on the error of the previous iteration
   MReturnUnconverged,        \* return instead of raise when the iteration limit is hit
   MWarmupRule,               \* window rule applied during warm-up
+  MGlobalStepCount,          \* warm-up counted over the whole run (no second warm-up after the stage restart)
+  MResetTentative,           \* tentative step reset to dt_init at the stage restart
   MEntryPerIteration         \* one window entry per call of adaptive_euler_step (per screening iteration) instead of per solve step
 
 FT == 24
@@ -91,6 +110,7 @@ VSub(a, b) == <<a[1] - b[1], a[2] - b[2]>>
 
 VARIABLES
   cfg,                       \* the configuration (a constant of the behaviour)
+  stage,                     \* 1 = thermalisation (options.skip_time > 0), 2 = the recorded stage
   \* ---- control
   pc,                        \* "begin", "test", "links", "euler", "induced", "finish", "raised"
   step,                      \* state["step"] of the call
@@ -105,17 +125,18 @@ VARIABLES
   adt,                       \* dt of the attempt that was answered
   tent,                      \* solver.tentative_dt
   dpsi,                      \* solver.d_psi_sq_vals (the last Window+1 entries)
+  nent,                      \* number of window entries appended so far (whole run, both stages)
   dstep,                     \* ghost: max|d|psi|^2| of every completed SOLVE STEP (last answer of the step against the
-                             \* step's old |psi|^2), last Window+1 entries; what the documented rule averages
+                             \* step's old |psi|^2) IN THE CURRENT STAGE, last Window+1 entries; what the documented rule averages
   delta,                     \* max|d|psi|^2| of the last answer
   Aind, vel, knew,           \* Polyak iterate, velocity, last kernel output
   linkA,                     \* induced potential the operators were last refreshed with
   hist                       \* environment choices so far (the replay script)
 
-cvars == <<cfg, pc, step, s, retries, nref, why, conv, prevconv, kcalls>>
-nvars == <<dt, adt, tent, dpsi, dstep, delta, Aind, vel, knew, linkA, hist>>
+cvars == <<cfg, stage, pc, step, s, retries, nref, why, conv, prevconv, kcalls>>
+nvars == <<dt, adt, tent, dpsi, dstep, nent, delta, Aind, vel, knew, linkA, hist>>
 vars == <<cvars, nvars>>
-View == <<cfg, pc, step, s, retries, nref, why, conv, prevconv, kcalls, dt, adt, tent, dpsi, dstep, delta, Aind, vel, knew, linkA>>
+View == <<cfg, stage, pc, step, s, retries, nref, why, conv, prevconv, kcalls, dt, adt, tent, dpsi, dstep, nent, delta, Aind, vel, knew, linkA>>
 
 Adaptive == cfg.adaptive
 Screening == cfg.screening
@@ -135,7 +156,7 @@ Canonical(c) ==   \* screening parameters do not matter without screening, nor a
                       /\ c.alphaexp = SetMin(AlphaExps) /\ c.betaq = SetMin(BetaQs))
   /\ (~c.adaptive => /\ c.window = SetMin(Windows) /\ c.retries = SetMin(RetrySet)
                      /\ c.mulexp = SetMin(MulExps) /\ c.maxe = SetMin(MaxEs))
-CfgSpace == {c \in [adaptive : Adaptives, screening : Screenings, window : Windows, retries : RetrySet,
+CfgSpace == {c \in [thermal : Thermals, adaptive : Adaptives, screening : Screenings, window : Windows, retries : RetrySet,
                     mulexp : MulExps, inite : InitEs, maxe : MaxEs, maxiter : MaxIters, tolexp : TolExps,
                     alphaexp : AlphaExps, betaq : BetaQs] : Canonical(c)}
 
@@ -144,19 +165,19 @@ ASSUME \A i \in InitEs, m \in MaxEs : i - m <= 32 /\ i <= FT - 2 /\ m >= -3
 ASSUME \A w \in Windows : IsPow2(w)
 
 InitWith(c) ==
-  /\ cfg = c /\ pc = "begin" /\ step = 0 /\ s = 0 /\ retries = 0 /\ nref = 0 /\ why = "none"
+  /\ cfg = c /\ stage = (IF c.thermal THEN 1 ELSE 2) /\ pc = "begin" /\ step = 0 /\ s = 0 /\ retries = 0 /\ nref = 0 /\ why = "none"
   /\ conv = FALSE /\ prevconv = FALSE /\ kcalls = 0
   /\ dt = 2^(FT - c.inite) /\ adt = 2^(FT - c.inite) /\ tent = 2^(FT - c.inite)
-  /\ dpsi = <<>> /\ dstep = <<>> /\ delta = 0 /\ Aind = Zero /\ vel = Zero /\ knew = Zero /\ linkA = Zero /\ hist = <<>>
+  /\ dpsi = <<>> /\ dstep = <<>> /\ nent = 0 /\ delta = 0 /\ Aind = Zero /\ vel = Zero /\ knew = Zero /\ linkA = Zero /\ hist = <<>>
 Init == \E c \in CfgSpace : InitWith(c)
 
 -----------------------------------------------------------------------------
 (* Begin *)
-BeginCtl == /\ pc = "begin" /\ step < MaxSteps
+BeginCtl == /\ pc = "begin" /\ step < (IF stage = 1 THEN MaxThermal ELSE MaxSteps)
             /\ pc' = "test" /\ s' = 0 /\ conv' = FALSE /\ prevconv' = FALSE /\ retries' = 0
-            /\ UNCHANGED <<cfg, step, nref, why, kcalls>>
+            /\ UNCHANGED <<cfg, stage, step, nref, why, kcalls>>
 BeginNum == /\ vel' = Zero                       \* velocity = [0.0]; A_induced_vals = [A_induced]
-            /\ UNCHANGED <<dt, adt, tent, dpsi, dstep, delta, Aind, knew, linkA, hist>>
+            /\ UNCHANGED <<dt, adt, tent, dpsi, dstep, nent, delta, Aind, knew, linkA, hist>>
 Begin == BeginCtl /\ BeginNum
 
 (* Test: top of `for screening_iteration in itertools.count()` *)
@@ -169,14 +190,14 @@ TestCtl == /\ pc = "test"
                           ELSE pc' = "raised" /\ why' = "screening"
                      ELSE pc' = (IF Screening THEN "links" ELSE "euler") /\ UNCHANGED why
            /\ retries' = 0
-           /\ UNCHANGED <<cfg, step, s, nref, conv, prevconv, kcalls>>
+           /\ UNCHANGED <<cfg, stage, step, s, nref, conv, prevconv, kcalls>>
 TestNum == /\ dt' = IF GoesOn /\ s = 0 THEN tent ELSE dt     \* `if screening_iteration == 0: dt = self.tentative_dt`
-           /\ UNCHANGED <<adt, tent, dpsi, dstep, delta, Aind, vel, knew, linkA, hist>>
+           /\ UNCHANGED <<adt, tent, dpsi, dstep, nent, delta, Aind, vel, knew, linkA, hist>>
 Test == TestCtl /\ TestNum
 
 (* Links *)
-LinksCtl == /\ pc = "links" /\ pc' = "euler" /\ UNCHANGED <<cfg, step, s, retries, nref, why, conv, prevconv, kcalls>>
-LinksNum == /\ linkA' = Aind /\ UNCHANGED <<dt, adt, tent, dpsi, dstep, delta, Aind, vel, knew, hist>>
+LinksCtl == /\ pc = "links" /\ pc' = "euler" /\ UNCHANGED <<cfg, stage, step, s, retries, nref, why, conv, prevconv, kcalls>>
+LinksNum == /\ linkA' = Aind /\ UNCHANGED <<dt, adt, tent, dpsi, dstep, nent, delta, Aind, vel, knew, hist>>
 Links == LinksCtl /\ LinksNum
 
 (* Refuse: solve_for_psi_squared returned None *)
@@ -184,29 +205,29 @@ Raising == ~Adaptive \/ (retries > MaxRetries /\ ~MNeverRaise)
 RefuseCtl == /\ pc = "euler" /\ nref < MaxRefusals /\ nref' = nref + 1
              /\ IF Raising THEN pc' = "raised" /\ why' = "euler" /\ UNCHANGED retries
                 ELSE pc' = "euler" /\ retries' = retries + 1 /\ UNCHANGED why
-             /\ UNCHANGED <<cfg, step, s, conv, prevconv, kcalls>>
+             /\ UNCHANGED <<cfg, stage, step, s, conv, prevconv, kcalls>>
 RefuseNum == /\ dt' = IF Raising THEN dt ELSE ExactDiv(dt, MulDen)
              /\ hist' = Append(hist, [t |-> "R", d |-> 0, k |-> Zero])
-             /\ UNCHANGED <<adt, tent, dpsi, dstep, delta, Aind, vel, knew, linkA>>
+             /\ UNCHANGED <<adt, tent, dpsi, dstep, nent, delta, Aind, vel, knew, linkA>>
 Refuse == RefuseCtl /\ RefuseNum
 
 (* Answer: solve_for_psi_squared returned a state *)
 SliceLen == Window + (IF MSliceExtra THEN 1 ELSE 0)
 Trim(sq) == IF Len(sq) > Window + 1 THEN LastN(sq, Window + 1) ELSE sq
 WinSlice(sq) == LastN(sq, Min(SliceLen, Len(sq)))         \* python: d_psi_sq_vals[-n:]
-RuleApplies == Adaptive /\ (step > Window \/ MWarmupRule)
+RuleApplies == Adaptive /\ ((IF MGlobalStepCount THEN nent > Window ELSE step > Window) \/ MWarmupRule)
 \* environment restriction: the sum the rule would divide by is 0 or a power of two
 SumOk(sq) == LET sm == SeqSum(sq) IN (sm = 0 \/ IsPow2(sm)) /\ IsPow2(Len(sq))
 WindowOk(d) == RuleApplies =>
                  /\ SumOk(WinSlice(Append(dpsi, d)))                       \* what the mechanism will average
                  /\ (Len(dstep) + 1 >= Window => SumOk(LastN(Append(dstep, d), Window)))   \* what the documented rule averages
 AnswerCtl == /\ pc = "euler" /\ pc' = (IF Screening THEN "induced" ELSE "finish")
-             /\ UNCHANGED <<cfg, step, s, retries, nref, why, conv, prevconv, kcalls>>
+             /\ UNCHANGED <<cfg, stage, step, s, retries, nref, why, conv, prevconv, kcalls>>
 AnswerNum(d) == /\ WindowOk(d) /\ delta' = d /\ adt' = dt
                 /\ dt' = IF MMulFirst THEN ExactDiv(dt, MulDen) ELSE dt
                 /\ hist' = Append(hist, [t |-> "A", d |-> d, k |-> Zero])
                 /\ dpsi' = IF MEntryPerIteration /\ Adaptive THEN Trim(Append(dpsi, d)) ELSE dpsi
-                /\ UNCHANGED <<tent, dstep, Aind, vel, knew, linkA>>
+                /\ UNCHANGED <<tent, dstep, nent, Aind, vel, knew, linkA>>
 Answer(d) == AnswerCtl /\ AnswerNum(d)
 
 (* Induced: kernel evaluation an, then
@@ -217,11 +238,11 @@ ErrSmall(dA, a2) == \A i \in 1..2 : IF a2[i] = 0 THEN dA[i] = 0
                                     ELSE Abs(dA[i]) <= (Abs(a2[i]) - 1) \div TolDen     \* |dA| * 2^tolexp < |A'|
 InducedCtl(c) == /\ pc = "induced" /\ pc' = "test" /\ s' = s + 1 /\ kcalls' = kcalls + 1
                  /\ prevconv' = conv /\ conv' = c
-                 /\ UNCHANGED <<cfg, step, retries, nref, why>>
+                 /\ UNCHANGED <<cfg, stage, step, retries, nref, why>>
 InducedNum(an) == LET v2 == PolyakV(an) IN
                   /\ knew' = an /\ vel' = <<v2[1], v2[2]>> /\ Aind' = VAdd(Aind, <<v2[1], v2[2]>>)
                   /\ hist' = Append(hist, [t |-> "K", d |-> 0, k |-> an])
-                  /\ UNCHANGED <<dt, adt, tent, dpsi, dstep, delta, linkA>>
+                  /\ UNCHANGED <<dt, adt, tent, dpsi, dstep, nent, delta, linkA>>
 NewIterate(an) == LET v2 == PolyakV(an) IN VAdd(Aind, <<v2[1], v2[2]>>)
 \* with a given kernel output (trace validation) ...
 InducedWith(an) == InducedCtl(ErrSmall(VSub(an, Aind), NewIterate(an))) /\ InducedNum(an)
@@ -240,19 +261,33 @@ Rule(dtv, sq) ==
      ELSE IF xe >= Log2(Cap) + 1 THEN Cap                          \* 1/2 (dt + X) >= X / 2 >= cap
      ELSE Min(ExactDiv(dtv + 2^xe, 2), Cap)
 FinishCtl == /\ pc = "finish" /\ pc' = "begin" /\ step' = step + 1
-             /\ UNCHANGED <<cfg, s, retries, nref, why, conv, prevconv, kcalls>>
+             /\ UNCHANGED <<cfg, stage, s, retries, nref, why, conv, prevconv, kcalls>>
 FinishNum == /\ IF Adaptive
                   THEN /\ dpsi' = IF MEntryPerIteration THEN dpsi ELSE Trim(Append(dpsi, delta))
-                       /\ dstep' = Trim(Append(dstep, delta))
+                       /\ dstep' = Trim(Append(dstep, delta)) /\ nent' = nent + 1
                        /\ tent' = IF RuleApplies THEN Rule(dt, IF MEntryPerIteration THEN dpsi ELSE Append(dpsi, delta)) ELSE tent
-                  ELSE UNCHANGED <<dpsi, dstep, tent>>
+                  ELSE UNCHANGED <<dpsi, dstep, nent, tent>>
              /\ UNCHANGED <<dt, adt, delta, Aind, vel, knew, linkA, hist>>
 Finish == FinishCtl /\ FinishNum
 
-Next == Begin \/ Test \/ Links \/ Refuse \/ (\E d \in Deltas : Answer(d)) \/ (\E k \in Kicks : Induced(k)) \/ Finish
+(* StageRestart: Runner.run ends the 'Thermalizing' stage (time >= skip_time, at least one step since skip_time > 0)
+   and starts 'Simulating': state["step"] and the time restart at 0.  The solver object persists, so tentative_dt and
+   d_psi_sq_vals carry over, and so do the values (psi, induced potential); `step > window` is evaluated on the
+   restarted index, so the recorded stage has a warm-up of its own during which tentative_dt stays what
+   thermalisation left.  (Runner also keeps its own dt, the "previous step" handed to update, which update overwrites
+   with tentative_dt before use.) *)
+StageRestartCtl == /\ pc = "begin" /\ stage = 1 /\ step >= 1 /\ stage' = 2 /\ step' = 0
+                   /\ UNCHANGED <<cfg, pc, s, retries, nref, why, conv, prevconv, kcalls>>
+StageRestartNum == /\ tent' = IF MResetTentative THEN DtInit ELSE tent
+                   /\ dstep' = <<>>                                   \* ghost: the documented list of THIS stage starts empty
+                   /\ hist' = Append(hist, [t |-> "S", d |-> 0, k |-> Zero])
+                   /\ UNCHANGED <<dt, adt, dpsi, nent, delta, Aind, vel, knew, linkA>>
+StageRestart == StageRestartCtl /\ StageRestartNum
+
+Next == Begin \/ StageRestart \/ Test \/ Links \/ Refuse \/ (\E d \in Deltas : Answer(d)) \/ (\E k \in Kicks : Induced(k)) \/ Finish
 Spec == Init /\ [][Next]_vars
 
-Terminal == pc = "raised" \/ (pc = "begin" /\ step = MaxSteps)
+Terminal == pc = "raised" \/ (pc = "begin" /\ stage = 2 /\ step = MaxSteps)
 \* behaviour export: the script of environment choices of every complete behaviour
 Emit == Terminal => PrintT(ToJson([cfg |-> cfg, hist |-> hist, raised |-> why]))
 
@@ -310,5 +345,5 @@ VelocityRestartsEachStep == [][(pc = "begin" /\ pc' = "test") => vel' = Zero]_va
 
 TypeOK == /\ pc \in {"begin", "test", "links", "euler", "induced", "finish", "raised", "dead"}   \* "dead": trace module, after the raise was observed
           /\ why \in {"none", "euler", "screening"} /\ (pc \in {"raised", "dead"} <=> why # "none")
-          /\ step \in 0..MaxSteps /\ retries >= 0 /\ s >= 0 /\ Len(dpsi) <= Window + 1 /\ Len(dstep) <= Window + 1
+          /\ stage \in {1, 2} /\ step >= 0 /\ retries >= 0 /\ s >= 0 /\ Len(dpsi) <= Window + 1 /\ Len(dstep) <= Window + 1
 =============================================================================
